@@ -5,22 +5,22 @@ V = pathlib.Path(__file__).resolve().parent.parent
 CHECKS = {
  "C15": dict(
    technique="property-based testing: Hypothesis-generated points/vectors in each system's domain (all octants, pi-multiples and rational angles) vs. harness textbook maps and frames (reference model); round-trip, inverse-equals-transpose, direct-equals-via-third (differential) over all 6 ordered pairs and 6 triples; Lame coefficients vs |dX/dq_i|",
-   text="640 generated cases + 27 enumerated quick / 20k thorough; every case exercises all ordered pairs and triples: scalar conversions there-and-back and against the harness maps, base-vector tables orthonormal with det +1, inverse = transpose, composition via the third system, convert_point / convert_vector preserve Cartesian position and components, scale factors and Jacobian equal the derivatives of the position map, unsupported pairs refused.",
+   text="640 generated cases + 27 enumerated quick / 20k thorough; every case exercises all ordered pairs and triples: scalar conversions there-and-back and against the harness maps, base-vector tables orthonormal with det +1, inverse = transpose, composition via the third system, convert_point / convert_vector preserve Cartesian position and components, scale factors and Jacobian (of both objects of each type) equal the derivatives of the position map, unsupported pairs refused; coordinates reach AppliedPoint in generated container kinds; float vectors/points at dyadic scales must convert linearly / homogeneously.",
    note="Trusted: harness maps X(q) and frames in the experimental convention (r, theta=polar, phi=azimuth), 50-digit mpmath. AppliedPoint.equals is only counted (relies on simplify).",
    ref="DESIGN.md section 2/C15; notes/C15.md"),
  "C16": dict(
    technique="property-based testing: generated linear combinations of vector atoms/products with symbolic coefficients and every choice of unknown vs. the R^3 component model (reference model) under 2 rational assignments; residual check for solve_for_scalar; structural + value check for apply; refusal classes",
-   text="5200 cases quick / 60k thorough: with E = lhs - rhs and s the coefficient of the isolated term recovered from the description, the returned equation must satisfy ret.lhs - ret.rhs == E/s (reduce on) or +-E (reduce off); unknown absent -> ValueError, scalar expression -> TypeError; solve_for_scalar results substituted back give residual 0; apply maps both sides.",
+   text="5200 cases quick / 60k thorough: with E = lhs - rhs and s the coefficient of the isolated term recovered from the description, the returned equation must satisfy ret.lhs - ret.rhs == E/s (reduce on) or +-E (reduce off); unknown absent -> ValueError, scalar expression -> TypeError; solve_for_scalar results substituted back give residual 0 (including radical, pole and positive-unknown equations whose candidate roots must be checked); coefficients include roots of products of possibly negative symbols; apply maps both sides.",
    note="Trusted: vp/model/r3.py. 'No answer' from SymPy's solve (IndexError etc.) is counted, not judged; numerically degenerate assignments (coplanar vectors) are discarded by a 120-digit conditioning probe.",
    ref="DESIGN.md section 2/C16; notes/C16.md"),
  "C12": dict(
    technique="property-based testing: generic undefined-function fields over all shapes (symbolic identities decide a whole shape) + Hypothesis-generated concrete fields vs. a harness-computed Cartesian truth through the local orthonormal frame (reference model), curl grad = 0 and div curl = 0 identities",
-   text="54 generic shapes (3 systems x scalar / 0-4 components x construction modes) are judged symbolically against a harness derivation (frame vectors and inverse Jacobian of the textbook maps), so the nine curvilinear formulas are compared for arbitrary smooth fields; 240 generated concrete fields quick / 4000 thorough are judged numerically at 5 regular points through a second harness derivation; zero padding and the 4-component refusal are checked.",
+   text="54 generic shapes (3 systems x scalar / 0-4 components x construction modes) are judged symbolically against a harness derivation (frame vectors and inverse Jacobian of the textbook maps), so the nine curvilinear formulas are compared for arbitrary smooth fields; 240 generated concrete fields quick / 4000 thorough are judged numerically at 5 regular points through a second harness derivation; zero padding and the 4-component refusal are checked; components include ties (two equal components) and even roots of perfect squares.",
    note="Trusted: the harness maps (legacy spherical convention r, theta=azimuth, phi=polar, asserted at start-up), SymPy diff/simplify. Every one of the 42 formula entries is touched in every run (reported in evidence).",
    ref="DESIGN.md section 2/C12; notes/C12.md"),
  "C13": dict(
    technique="property-based testing: Hypothesis-generated polynomial/trigonometric fields x circles, ellipses, rectangles, tilted discs, paraboloid/cone caps, boxes, shells; differential oracle between the library's boundary and region routes plus harness closed forms monomial by monomial; metamorphic reparametrisation and orientation relations",
-   text="160 cases quick / 2400 thorough, one per worker task with a hang guard: Stokes (curve vs curl over surface), Green (curve flux vs divergence over parametrised and implicit regions), Gauss (six faces vs volume); every route is also compared with a harness closed form so two library routes cannot be wrong together; results must be free of coordinate variables, invariant under parameter speed, negated by orientation reversal.",
+   text="160 cases quick / 2400 thorough, one per worker task with a hang guard: Stokes (curve vs curl over surface), Green (curve flux vs divergence over parametrised and implicit regions), Gauss (six faces vs volume); every route is also compared with a harness closed form so two library routes cannot be wrong together; results must be free of coordinate variables, invariant under parameter speed (affine and non-linear backward-running parametrisations), negated by orientation reversal; parameter domains include non-rectangular ones and the system's own base scalars in swapped roles.",
    note="Trusted: harness closed forms in vp/checks/c13_model.py (no SymPy integrate), degree <= 3 fields, regions SymPy can integrate. Hang-guard expiries are inconclusive.",
    ref="DESIGN.md section 2/C13; notes/C13.md"),
  "C19": dict(
@@ -30,7 +30,7 @@ CHECKS = {
    ref="DESIGN.md section 2/C19"),
  "C03": dict(
    technique="property-based testing over process-level histories: Hypothesis-generated id-counter states at digit boundaries, garbage creations and import orders, each executed in a fresh interpreter; differential oracle against the reference history (import success, value fingerprints of equations, calculation results)",
-   text="Every catalogue module is observed when imported first with fresh counters (reference) and under generated counter states that make its own symbols straddle 9/10, 99/100, ... boundaries (1 state per module quick, 5 thorough), plus 8 (64) full-catalogue imports in generated orders; import must succeed and every equation's value fingerprint (keyed by display name + dimension) and every calculation result must equal the reference.",
+   text="Every catalogue module is observed when imported first with fresh counters (reference) and under generated counter states that make its own symbols straddle 9/10, 99/100, ... boundaries (1 state per module quick, 5 thorough), plus one prior-use history per module from 22 kinds of earlier library use (objects, float quantities, copies and evaluations of constants, Symbolic wrappers around like-printing symbols, objects made in a second thread, ...; all kinds in thorough, a rotating kind or the union of all kinds in quick), plus 8 (64) full-catalogue imports in generated orders; import must succeed and every equation's value fingerprint (keyed by display name + dimension) and every calculation result must equal the reference.",
    note="Trusted: a fork right after `import symplyphysics` equals a fresh interpreter with that pre-history; M-interp value semantics; PYTHONHASHSEED pinned. Histories are sampled, not enumerated; address-dependent effects are not controlled. One open known finding (focal_length_of_a_concave_spherical_mirror).",
    ref="DESIGN.md section 2/C03"),
  "C04": dict(
@@ -40,12 +40,12 @@ CHECKS = {
    ref="DESIGN.md section 2/C04; notes/C04.md"),
  "C05": dict(
    technique="property-based testing: expression trees generated together with their intended exact SI value and dimension vector (reference model), single-spoiler and wildcard mutations, cancelling partial sums",
-   text="4k trees quick / 80k thorough: valid trees must give the model's SI value and dimension; trees with exactly one spoiler (inequivalent term, dimensional exponent or function argument, free symbol, derivative) must be refused with ValueError; wildcard mutations (zero/inf/NaN term of a foreign dimension) must still be accepted; verdicts are judged on the terms as written.",
+   text="4k trees quick / 80k thorough: valid trees must give the model's SI value and dimension; trees with exactly one spoiler (inequivalent term, dimensional exponent or function argument, free symbol, derivative) must be refused with ValueError; wildcard mutations (zero/inf/NaN term of a foreign dimension) must still be accepted; verdicts are judged on the terms as written. Magnitudes range from 10**-400 to 10**400 (exact), dimensionless exponents/arguments are also written as compounds of derived units (hertz*second, joule/(newton*meter)).",
    note="Trusted: vp/model/qexpr.py (exact SymPy numbers + M-dim + M-units). NaN under Min/Max, zoo and infinite exponents are discarded and counted.",
    ref="DESIGN.md section 2/C05; notes/C05.md"),
  "C06": dict(
    technique="property-based testing: generated trees over dimensioned symbols/functions/derivatives/quantities vs. M-dim composition (reference model), value-equality of the returned expression, refusal exactly for spoiled trees, commuting diagram with Quantity substitution (differential with C05)",
-   text="3k trees quick / 60k thorough; the returned dimension must equal the model composition of the declared leaf dimensions, the returned expression must be value-equal to the input, errors must occur exactly for spoiled trees, and substituting non-zero quantities for the symbols must give a quantity of the inferred dimension.",
+   text="3k trees quick / 60k thorough; the returned dimension must equal the model composition of the declared leaf dimensions, the returned expression must be value-equal to the input, errors must occur exactly for spoiled trees, and substituting non-zero quantities for the symbols must give a quantity of the inferred dimension. Applied library functions also get composite and spoiled arguments.",
    note="Trusted: vp/model/qexpr.py; applied functions interpreted by a fixed polynomial. Five open known findings (minor classes of collect_expression_and_dimension) are excluded by construction and counted.",
    ref="DESIGN.md section 2/C06; notes/C06.md"),
  "C07": dict(
@@ -55,12 +55,12 @@ CHECKS = {
    ref="DESIGN.md section 2/C07; notes/C07.md"),
  "C08": dict(
    technique="property-based testing: operand pairs constructed around the tolerance boundary (must-pass band, must-fail band, unjudged strip) with independent units, metamorphic symmetry and unit-independence relations, vector conjunction",
-   text="20k pairs quick / 400k thorough for assert_equal, assert_equal_vectors, approx_equal_quantities, approx_equal_numbers: verdict must follow the band semantics of the property, refuse inequivalent dimensions, be symmetric without absolute tolerance, not depend on units, compare bare numbers only under an explicit dimension and vectors component-wise with equal lengths.",
+   text="20k pairs quick / 400k thorough for assert_equal, assert_equal_vectors, approx_equal_quantities, approx_equal_numbers: verdict must follow the band semantics of the property, refuse inequivalent dimensions, be symmetric without absolute tolerance, not depend on units, compare bare numbers only under an explicit dimension and vectors component-wise with equal lengths. Magnitudes 1e-36..1e30; inequivalent dimensions include float-exponent neighbours (m**1.5 vs m**2) and two quantities compared under an explicit dimension= keyword.",
    note="Trusted: the band semantics as written in the property; pairs closer than a stated margin to a boundary are discarded. The absolute tolerance is judged only where the gram-scaled and the SI reading agree (documented ambiguity).",
    ref="DESIGN.md section 2/C08; notes/C08.md"),
  "C09": dict(
    technique="stateful property-based testing: Hypothesis RuleBasedStateMachine over creation/clone histories with colliding display names, no-aliasing invariants after every step (subs/diff/solve/dict keys), clone postconditions, printing invariant; collect mode with replayable step lists",
-   text="242 histories x 40 steps quick / 2.3k x 60 thorough over Symbol, IndexedSymbol, Function, Quantity, CoordinateSystem, VectorSymbol/VectorFunction creations and clones with tiny name pools and counter bumps to digit boundaries; after every step all live objects must be pairwise distinct in substitution, differentiation and solving, clones keep dimension/display names/assumptions and append subscripts to both names, and the three printers never show generated internal names.",
+   text="242 histories x 40 steps quick / 2.3k x 60 thorough over Symbol, IndexedSymbol, Function, Quantity, CoordinateSystem, VectorSymbol/VectorFunction creations and clones with tiny name pools and counter bumps to digit boundaries; after every step all live objects must be pairwise distinct in substitution, differentiation and solving, clones keep dimension/display names/assumptions and append subscripts to both names, and the three printers never show generated internal names. Plus bursts in forked processes: 9-24 objects under one display name followed by digit-suffixed names, half of them optionally in a second thread, all pairwise distinct and distinct from the catalogue's constants and common symbols, which keep their meaning.",
    note="Trusted: the model dict maintained by the rules. Two open known findings (printing of applied VectorFunctions; IndexedSymbol rebuilt by .doit()).",
    ref="DESIGN.md section 2/C09; notes/C09.md"),
  "C20": dict(
@@ -86,7 +86,7 @@ CHECKS = {
    ref="DESIGN.md section 2/C10; notes/C10.md"),
  "C11": dict(
    technique="property-based testing: Hypothesis-generated points/vectors/fields in all octants vs. harness textbook coordinate maps at 40+ digits (reference model), there-and-back round trips, curvilinear dot/magnitude/scale vs Cartesian (differential), refusal table",
-   text="1.3k vector cases, 650 field cases, 260 own-base-scalar cases and the refusal table per quick run (20x in thorough): rebase there and back, rebase vs harness map, dot/magnitude/scaling in curvilinear systems vs Cartesian truth (k>0 and k<0 separately), scalar fields re-expressed and applied at corresponding points, cylindrical<->spherical and wrong point kinds refused.",
+   text="1.3k vector cases, 650 field cases, 260 own-base-scalar cases and the refusal table per quick run (20x in thorough): rebase there and back, rebase vs harness map, dot/magnitude/scaling in curvilinear systems vs Cartesian truth (k>0 and k<0 separately), scalar fields re-expressed and applied at corresponding points, cylindrical<->spherical and wrong point kinds refused; 480 (8k) float vectors at magnitudes 1e-30..1e15 with a tolerance relative to the vector.",
    note="Trusted: the harness maps typed from the textbook with the library's legacy ordering (r, theta=azimuth, phi=polar), cross-checked once against transformation_to_system; points are generated away from singularities. Only identity-oriented parent/child pairs from coordinates_transform are exercised.",
    ref="DESIGN.md section 2/C11; notes/C11.md"),
  "C17": dict(
